@@ -63,6 +63,8 @@ def aes_patches():
     def gmul_lin(a, n):
         "summary of gmul(a, constant): the GF(2)-linear xtime form (lemma C02.leaf gmulc)"
         if not isinstance(a, SymInt):
+            if isinstance(n, SymInt) and isinstance(a, int) and a in (2, 3, 9, 11, 13, 14):
+                return RC.gf_mulc(n, a)          # gmul(constant, x): same closed form (lemma C02.leaf gmulc with swap)
             return real_gmul(a, n)
         assert isinstance(n, int) and n in (2, 3, 9, 11, 13, 14), 'gmul summary used outside the domain its lemma covers'
         return RC.gf_mulc(a, n)
@@ -279,7 +281,7 @@ class Leaf(Case):
     kind = 'L'
     timeout_s = 900
     max_paths = 3000
-    bounds = ('AES sboxtable[i]/sboxinvtable[i] for a symbolic index == affine(inverse) computed in GF(2^8); gmul(a,c) for symbolic a and c in {2,3,9,11,13,14} == xtime form; '
+    bounds = ('AES sboxtable[i]/sboxinvtable[i] for a symbolic index == affine(inverse) computed in GF(2^8); gmul(a,c) and gmul(c,a) for symbolic a and c in {2,3,9,11,13,14} == xtime form; '
               'gmul(a,b) for 17 values of b (quick) / every b in 0..255 (thorough: all 65536 pairs) with a symbolic; plus 5 values of a with b symbolic == multiplication modulo x^8+x^4+x^3+x+1; DES S(n,x) for symbolic x (8 boxes), IP, IPinv, PC1, PC2, E, P as bit permutations of symbolic words; '
               'Serpent _S/_Sinv (8 boxes each) on a symbolic 128-bit state == bitslice S-box, _IP/_FP, _L/_Linv == reference')
 
@@ -288,6 +290,7 @@ class Leaf(Case):
         yield dict(fn='aes.Si')
         for c in (2, 3, 9, 11, 13, 14):
             yield dict(fn='aes.gmulc', c=c)
+            yield dict(fn='aes.gmulc', c=c, swap=1)      # constant as FIRST operand (the summary accepts either order)
         for b in (range(256) if tier == 'thorough' else (0, 1, 2, 3, 4, 9, 11, 13, 14, 0x1b, 0x53, 0x57, 0x80, 0x83, 0xca, 0xfe, 0xff)):
             yield dict(fn='aes.gmul', b=b)          # second operand enumerated, first symbolic: all 65536 pairs
         for a in (0, 1, 2, 0x53, 0xff):
@@ -327,7 +330,7 @@ class Leaf(Case):
             import crysp.aes as aes
             if fn == 'aes.S': return getitem(aes.AES.sboxtable.ival, args[0])
             if fn == 'aes.Si': return getitem(aes.AES.sboxinvtable.ival, args[0])
-            if fn == 'aes.gmulc': return aes.gmul(args[0], shape['c'])
+            if fn == 'aes.gmulc': return aes.gmul(shape['c'], args[0]) if shape.get('swap') else aes.gmul(args[0], shape['c'])
             return aes.gmul(args[0], args[1])
         if fn.startswith('des.'):
             import crysp.des as des
